@@ -223,6 +223,17 @@ pub fn classify_with(diffs: &[Diff], reference: Option<&Dump>) -> String {
                 };
                 for (name, key) in [("locs=", "locations"), (" origin=", "alias-origin"), (" enum_key=", "enum"), (" supers=", "supers"), (" generics=", "generics")] {
                     if field(l, name) != field(r, name) {
+                        if key == "supers" {
+                            // the same simple names, resolved into another namespace
+                            let simple = |s: String| -> Vec<String> {
+                                let mut v: Vec<String> = s.trim_matches(|c| c == '[' || c == ']').split(' ').map(|n| n.rsplit('.').next().unwrap_or("").to_string()).collect();
+                                v.sort();
+                                v
+                            };
+                            if simple(field(l, name)) == simple(field(r, name)) {
+                                return "type:supers-namespace-changed".into();
+                            }
+                        }
                         return format!("type:{key}-changed");
                     }
                 }
@@ -240,6 +251,14 @@ pub fn classify_with(diffs: &[Diff], reference: Option<&Dump>) -> String {
                 let (ld, rd) = (part(l, 1), part(r, 1));
                 let strip_doc = |s: &str| s.split(" doc=").next().unwrap_or("").to_string();
                 if strip_doc(&ld) != strip_doc(&rd) {
+                    // a token that resolved to nothing now resolves (or the other way round)
+                    let none = |s: &str| s.split(' ').next().unwrap_or("") == "-";
+                    if none(&ld) && !none(&rd) {
+                        return "resubmit-resolves-more".into();
+                    }
+                    if !none(&ld) && none(&rd) {
+                        return "resubmit-resolves-less".into();
+                    }
                     let k = |s: &str| s.split(':').next().unwrap_or("").to_string();
                     // "<file>@a..b NAME : ..." -> NAME; are both targets global declarations of NAME?
                     let name = l.split(" : ").next().unwrap_or("").rsplit(' ').next().unwrap_or("").to_string();
